@@ -10,6 +10,7 @@ CONSTANTS
   CodeDen = {}
   Dims = 2
   Kinds <- KindsML
+  HalfLimits = FALSE
   Uneven = "short"
 VIEW View
 INVARIANTS TypeOKT PartsOKT PartitionT CompleteT DevOKT NoNonPosDrawn
